@@ -173,8 +173,16 @@ Proof. vm_compute. reflexivity. Qed.
 Theorem C18_array_identities : forall (A : Type) (l : list A) (d : A), l <> [] ->
   arr_back l = Some (last l d) /\ arr_front l = Some (hd d l) /\
   (forall i, i < length l -> arr_index l i = Some (nth i l d)) /\
-  (forall ls : list (list A), arr_concat ls = concat ls).
+  (forall ls : list (list A), arr_concat ls = concat ls) /\
+  (* == / != : list equality under the element type's own ==, about which NOTHING is assumed (NaN, -0.0, padding) *)
+  (forall (eqA : A -> A -> bool) l1 l2,
+     (arr_eqb eqA l1 l2 = true <-> Forall2 (fun x y => eqA x y = true) l1 l2) /\
+     arr_neb eqA l1 l2 = negb (arr_eqb eqA l1 l2)).
 Proof. exact array_identities_all. Qed.
 Print Assumptions C18_array_identities.
-Example C18_array_nonvacuous : arr_back [10; 20; 30] = Some 30 /\ arr_concat [[1]; [2; 3]; []; [4]] = [1; 2; 3; 4].
-Proof. split; reflexivity. Qed.
+Example C18_array_nonvacuous : arr_back [10; 20; 30] = Some 30 /\ arr_concat [[1]; [2; 3]; []; [4]] = [1; 2; 3; 4] /\
+  (* an element == that is not reflexive (2 plays NaN): the array is not equal to itself *)
+  arr_eqb (fun a b => negb (Nat.eqb a 2) && Nat.eqb a b) [1; 2] [1; 2] = false /\
+  (* an element == that is not bitwise (ignores the low bit, like -0.0 == +0.0) *)
+  arr_eqb (fun a b => Nat.eqb (a / 2) (b / 2)) [0; 3] [1; 2] = true.
+Proof. repeat split; reflexivity. Qed.
